@@ -69,6 +69,8 @@ def assigned_names(stmts):
                     tgt(t)
             elif isinstance(n, ast.ExceptHandler) and n.name:
                 names.add(n.name)
+            elif isinstance(n, (ast.Yield, ast.YieldFrom)):
+                names.add('yielded')       # the generator's accumulator (ghost local)
             elif isinstance(n, ast.With):
                 for it in n.items:
                     if it.optional_vars is not None:
@@ -117,6 +119,24 @@ class StmtMixin:
     def x_Expr(self, s, st):
         if isinstance(s.value, ast.Constant):
             return [Outcome('normal', st)]
+        if isinstance(s.value, (ast.Yield, ast.YieldFrom)):
+            # a generator whose consumer reads everything: modelled by the sequence of yielded values, built eagerly in the
+            # ghost local `yielded` (stated assumption: no observable interleaving with the consumer)
+            if 'yielded' not in st.env:
+                raise Unsupported('yield outside a function declared as generator (contract returns Seq[...])')
+            outs = []
+            if s.value.value is None:
+                raise Unsupported('bare yield')
+            for st2, v in self.ev(s.value.value, st, outs):
+                acc = st2.env['yielded']
+                if isinstance(s.value, ast.Yield):
+                    item = self.coerce(v, acc.ty.elem, st2)
+                    st2.env['yielded'] = V(acc.ty, z3.Concat(acc.t, z3.Unit(item.t)))
+                else:
+                    sv = self.coerce(self.seq_of(v, st2), acc.ty, st2)
+                    st2.env['yielded'] = V(acc.ty, z3.Concat(acc.t, sv.t))
+                outs.append(Outcome('normal', st2))
+            return outs
         outs = []
         for st2, v in self.ev(s.value, st, outs):
             outs.append(Outcome('normal', st2))
@@ -697,7 +717,10 @@ class StmtMixin:
 
         def pre_body(e):
             k = e.env[idx].t
-            for _ in self.assign(s.target, getter(k), e, outs):
+            item = getter(k)
+            if isinstance(item.ty, TRef) and not item.ty.nullable:
+                e.assume(item.t != null())        # type invariant of Seq[Ref[C]]: its elements are objects, not None
+            for _ in self.assign(s.target, item, e, outs):
                 pass
 
         def step(e):
